@@ -88,6 +88,9 @@ type Builder struct {
 	funcsM []string // functions placed in package m
 	n      int
 	usesM  bool
+	// Pending holds extra methods created while generating a method (":conv" targets that are
+	// themselves generated in the same run).
+	Pending []*Method
 }
 
 var baseWords = []string{"Id", "Name", "Val", "Cnt", "Tag", "Ref", "Opt", "Nest", "List", "Kind", "Code", "Flag", "Size", "Txt", "Aux", "Key"}
@@ -194,6 +197,7 @@ func renderIn(pkg, expr string) string {
 
 // pairCtx carries what nested generation needs.
 type pairCtx struct {
+	rootSrc  *SDecl // struct declaration of the copy source operand
 	m        *Method
 	srcPkg   string
 	dstPkg   string
@@ -394,7 +398,11 @@ func (b *Builder) genField(ctx pairCtx, src, dst *SDecl, name, mech string) {
 	case "map":
 		b.genMap(ctx, src, dst, name)
 	case "conv":
-		b.genConv(ctx, src, dst, name)
+		if b.chance(0.12) && src.Pkg == "" && dst.Pkg == "" {
+			b.genConvGenerated(ctx, src, dst, name)
+		} else {
+			b.genConv(ctx, src, dst, name)
+		}
 	case "literal":
 		t := b.pick(map[string]int{"int": 3, "string": 3, "bool": 1, "LInt": 1, "*int": 1})
 		lit := map[string]string{"int": "4242", "string": `"lit-` + name + `"`, "bool": "true", "LInt": "LInt(77)", "*int": "nil"}[t]
@@ -477,6 +485,9 @@ func (b *Builder) genMap(ctx pairCtx, src, dst *SDecl, name string) {
 	dst.Fields = append(dst.Fields, FDecl{Name: name, Type: t})
 	dpath := joinPath(ctx.dstPath, name)
 	variant := b.pick(map[string]int{"field": 4, "getter": 3, "nestedsrc": 2, "arg": 3, "argpath": 2, "unresolved": 1, "wrongcase": 1, "gettererr": 1, "typed": 2})
+	if !ctx.topLevel && ctx.rootSrc != nil && ctx.rootSrc.Pkg == src.Pkg && b.chance(0.3) {
+		variant = "rootsrc"
+	}
 	if variant == "arg" || variant == "argpath" {
 		if isReverse(m) {
 			variant = "field"
@@ -490,6 +501,12 @@ func (b *Builder) genMap(ctx pairCtx, src, dst *SDecl, name string) {
 	}
 	sp := func(n string) string { return joinPath(ctx.srcPath, n) }
 	switch variant {
+	case "rootsrc":
+		// the source path names a member of the ROOT source operand; the nested source struct has a
+		// member of the same name (a decoy that must not be used: source paths start at the operand)
+		ctx.rootSrc.Fields = append(ctx.rootSrc.Fields, FDecl{Name: other, Type: t})
+		src.Fields = append(src.Fields, FDecl{Name: other, Type: t})
+		m.Notations = append(m.Notations, Notation{Name: "map", Args: []string{other, dpath}})
 	case "field":
 		src.Fields = append(src.Fields, FDecl{Name: other, Type: t})
 		m.Notations = append(m.Notations, Notation{Name: "map", Args: []string{sp(other), dpath}})
@@ -661,6 +678,12 @@ func (b *Builder) genConv(ctx pairCtx, src, dst *SDecl, name string) {
 	}
 	dst.Fields = append(dst.Fields, FDecl{Name: dstField, Type: dstT})
 	srcExpr := joinPath(ctx.srcPath, srcField)
+	if !ctx.topLevel && ctx.rootSrc != nil && ctx.rootSrc.Pkg == src.Pkg && variant != "getter" && b.chance(0.25) {
+		// root-level source with a same-named decoy in the nested source struct
+		ctx.rootSrc.Fields = append(ctx.rootSrc.Fields, FDecl{Name: srcField, Type: srcT})
+		srcExpr = srcField
+		variant += "+rootsrc"
+	}
 	if variant == "getter" {
 		hidden := "g" + srcField
 		src.Fields = append(src.Fields, FDecl{Name: hidden, Type: srcT})
@@ -858,8 +881,10 @@ func (b *Builder) GenMethod(name string) *Method {
 	nf := p.MinFields + b.R.Intn(p.MaxFields-p.MinFields+1)
 	if reverse {
 		// the first parameter is the copy destination, the result type the copy source
+		ctx.rootSrc = dst
 		b.genPair(ctx, dst, src, nf)
 	} else {
+		ctx.rootSrc = src
 		b.genPair(ctx, src, dst, nf)
 	}
 	sref, dref := src.Ref(), dst.Ref()
@@ -996,6 +1021,15 @@ func (b *Builder) Finish() *Scenario {
 	}
 	su.WriteString(bs)
 	s.Files[s.Setup] = su.String()
+	if b.usesM && b.R != nil && b.chance(0.15) {
+		// the imported package's name differs from the last element of its import path
+		reQ := regexp.MustCompile(`(^|[^A-Za-z0-9_."])m\.([A-Z])`)
+		for _, f := range []string{s.PkgRel + "/types.go", s.Setup} {
+			s.Files[f] = reQ.ReplaceAllString(s.Files[f], "${1}mq.${2}")
+		}
+		s.Files[s.PkgRel+"/m/m.go"] = strings.Replace(s.Files[s.PkgRel+"/m/m.go"], "package m\n", "package mq\n", 1)
+		s.Feature("pkgname_differs_from_dir", "true")
+	}
 	s.DrvImports = append(s.DrvImports, "\"vb/ext\"")
 	if b.usesM {
 		s.DrvImports = append(s.DrvImports, "m \""+s.PkgPath()+"/m\"")
@@ -1022,6 +1056,7 @@ func GenBroad(r *rand.Rand, p Profile, id, pkgRel string) *Scenario {
 	for i := 0; i < nm; i++ {
 		it.Methods = append(it.Methods, b.GenMethod(fmt.Sprintf("Conv%c%d", 'A'+i, i)))
 	}
+	it.Methods = append(it.Methods, b.Pending...)
 	b.S.Ifaces = append(b.S.Ifaces, it)
 	b.S.Feature("profile", p.Name)
 	return b.Finish()
@@ -1113,4 +1148,29 @@ func (b *Builder) Manual(methods ...*Method) *Scenario {
 	b.S.Ifaces = append(b.S.Ifaces, &Iface{Name: "Convergen", Converter: true, Methods: methods})
 	b.S.Feature("profile", "corpus")
 	return b.Finish()
+}
+
+// genConvGenerated wires a :conv to a function that is itself generated in the same run.
+func (b *Builder) genConvGenerated(ctx pairCtx, src, dst *SDecl, name string) {
+	m := ctx.m
+	gi := b.newStruct("", "GI")
+	gd := b.newStruct("", "GD")
+	gi.Fields = []FDecl{{Name: "A", Type: "int"}, {Name: "B", Type: "string"}}
+	gd.Fields = []FDecl{{Name: "A", Type: "int"}, {Name: "B", Type: "string"}}
+	inner := &Method{Name: fmt.Sprintf("Gen%d", b.next())}
+	st, dt := gi.Ref(), gd.Ref()
+	if b.chance(0.6) {
+		st = "*" + st
+	}
+	if b.chance(0.6) {
+		dt = "*" + dt
+	}
+	inner.Src.Type, inner.Dst.Type = st, dt
+	inner.Probes = []Probe{{Dst: "A", Mech: "same", DstT: "int", SrcT: "int"}, {Dst: "B", Mech: "same", DstT: "string", SrcT: "string"}}
+	b.Pending = append(b.Pending, inner)
+	src.Fields = append(src.Fields, FDecl{Name: name, Type: st})
+	dst.Fields = append(dst.Fields, FDecl{Name: name, Type: dt})
+	m.Notations = append(m.Notations, Notation{Name: "conv", Args: []string{inner.Name, joinPath(ctx.srcPath, name), joinPath(ctx.dstPath, name)}})
+	b.S.RegFuncs = append(b.S.RegFuncs, inner.Name)
+	b.addProbe(ctx, name, "conv", dt, st, "generated")
 }
